@@ -276,3 +276,7 @@ def run(ck):
     ck.borrow("C03", ["C03-R13"], "C16-R9",
               "every built-in header class has a reader that returns: parse / parseRaw resolve to an override, not to the pair of base-class "
               "defaults that call each other", min_instances=10)
+    ck.borrow("C01", ["C01-R5"], "C16-R10",
+              "a header value is stored only when its line is known to be complete: nothing is written into the header tables on a path "
+              "where the buffered input may just have run out -- the tables keep the first value they are given, so a value cut short by "
+              "the end of a read would stay cut short", min_instances=1)
